@@ -172,6 +172,29 @@ func init() {
 		Assumptions: worldAssumptions,
 	})
 	register(&Property{
+		ID: "C18", Level: "exploration", EvalCounter: "resolutions_checked",
+		Rule: "observers answer resolution requests at arbitrary points of seeded histories (documents built from validated keys of all types x purpose subsets, services, " +
+			"also-known-as, other members) with every transformer option combination (@base, published / unpublished operation lists, method contexts, published vs unpublished " +
+			"info); operation lists are handed over shuffled, with duplicates sharing a canonical reference and (time, number) pairs that disagree; document and metadata are " +
+			"compared member by member with the reference resolution. distinct_nontrivial = distinct (options, #keys, #services, #operations) tuples",
+		Cases: func(master uint64, tier string) []Case {
+			n := 1200
+			if tier == "thorough" {
+				n = 25000
+			}
+			return seqCases(master, n, nil)
+		},
+		Gen: func(c Case, pool *Pool) *Plan { return GenResolve(c.Seed, pool) },
+		Components: func() map[string]string {
+			m := map[string]string{"didtransformer.Transformer, metadata.CreateDocumentMetadata, docutil.GetTransformationInfoFor*": "real"}
+			for k, v := range worldComponents {
+				m[k] = v
+			}
+			return m
+		}(),
+		Assumptions: worldAssumptions,
+	})
+	register(&Property{
 		ID: "C01", Level: "exploration", EvalCounter: "fold_steps_checked",
 		Rule: "seeded histories (1-4 DIDs, 2-30 operations, each valid or carrying one labelled failure class, all key types, drawn protocol config, " +
 			"raw and chain processors, crash/restart, torn/lost writes, block drop/dup/delay) plus an enumerated class x position sub-sweep over valid base " +
